@@ -44,6 +44,9 @@ pub struct Model {
     pub known_users: BTreeSet<String>,
     /// LST minted for native-chain recipients (sum of minted amounts per recipient)
     pub lst_owed_native: BTreeMap<String, u128>,
+    /// due time the very first pending batch must have: instantiation time + batch period
+    pub first_due: u64,
+    pub first_due_checked: bool,
     /// oracle address of the last accepted protocol section (None = never updated)
     pub intended_oracle: Option<Option<String>>,
     /// set once the totals became unobservable; the flow bookkeeping is then incomplete for good
@@ -137,6 +140,8 @@ impl Model {
             m.known_users.insert(u.clone());
         }
         m.known_users.insert(sc.contract_user.clone());
+        // Sc::new instantiates at the world's current block time and does not advance the clock
+        m.first_due = sc.w.now_s().saturating_add(sc.cfg.batch_period);
         m
     }
     pub fn on(&self, p: &str) -> bool {
@@ -629,6 +634,12 @@ impl Model {
 
         // ---------------- C06
         if self.on("C06") {
+            if !self.first_due_checked {
+                self.first_due_checked = true;
+                if pre.pending.id == 1 && pre.pending.status == "pending" && pre.pending.next_time_s != self.first_due {
+                    v.push(Viol { prop: "C06", what: format!("the initial pending batch is due at {} but instantiation time + batch period is {}", pre.pending.next_time_s, self.first_due) });
+                }
+            }
             let npend = post.batches.iter().filter(|b| b.status == "pending").count();
             if npend != 1 {
                 v.push(Viol { prop: "C06", what: format!("{npend} pending batches after {kind}") });
